@@ -131,7 +131,7 @@ func cmdC04(r *RNG, n int, e *Emitter, args []string) {
 		}
 	}
 	for i := 0; i < n; i++ {
-		takeDiscards()
+		clearEvents()
 		G := []int64{12, 20, 40, 100, 400}[r.Intn(5)]
 		var info GenInfo
 		info.Grid = G
@@ -259,7 +259,7 @@ func emitC04(e *Emitter, id string, s, c clip.Paths64, ct clip.ClipType, fr clip
 		if nd.Parent >= 0 {
 			pp := pathsFromJSON([][][2]int64{nodes[nd.Parent].Poly})
 			line, _ := genLine("imp", "4", []clip.Paths64{pk, pp}, append(clonePaths(pk), pp...), nil)
-			e.Case(fmt.Sprintf("c04-%s.p%d", id, k), line, map[string]any{"subject": meta["subject"], "clip": meta["clip"], "ct": int(ct), "fr": int(fr), "clip_nil": false, "what": "parent", "node": nd.Poly, "other": nodes[nd.Parent].Poly, "nodes": nodes})
+			e.Case(fmt.Sprintf("c04-%s.p%d", id, k), line, map[string]any{"subject": meta["subject"], "clip": meta["clip"], "ct": int(ct), "fr": int(fr), "clip_nil": false, "what": "parent", "node": nd.Poly, "other": nodes[nd.Parent].Poly, "nodes": nodes, "micro_splices": meta["micro_splices"], "split_discards": meta["split_discards"]})
 		}
 		for k2 := k + 1; k2 < len(nodes); k2++ {
 			if nodes[k2].Parent != nd.Parent {
@@ -267,7 +267,7 @@ func emitC04(e *Emitter, id string, s, c clip.Paths64, ct clip.ClipType, fr clip
 			}
 			p2 := pathsFromJSON([][][2]int64{nodes[k2].Poly})
 			line, _ := genLine("disj", "4", []clip.Paths64{pk, p2}, append(clonePaths(pk), p2...), nil)
-			e.Case(fmt.Sprintf("c04-%s.s%d.%d", id, k, k2), line, map[string]any{"subject": meta["subject"], "clip": meta["clip"], "ct": int(ct), "fr": int(fr), "clip_nil": false, "what": "sibling", "node": nd.Poly, "other": nodes[k2].Poly, "nodes": nodes})
+			e.Case(fmt.Sprintf("c04-%s.s%d.%d", id, k, k2), line, map[string]any{"subject": meta["subject"], "clip": meta["clip"], "ct": int(ct), "fr": int(fr), "clip_nil": false, "what": "sibling", "node": nd.Poly, "other": nodes[k2].Poly, "nodes": nodes, "micro_splices": meta["micro_splices"], "split_discards": meta["split_discards"]})
 		}
 	}
 }
